@@ -7,12 +7,16 @@ import numpy as np
 from harness import common as C
 from harness import selectors as S
 from harness.props import c01
+from harness import c08_sessions as SS
 
 ANCHORS = {"src/skmatter/_selection.py": [
-    "GreedySelector.fit", "GreedySelector._continue_greedy_search", "_CUR._continue_greedy_search",
-    "_PCovCUR._continue_greedy_search", "_CUR._update_post_selection", "_PCovCUR._update_post_selection",
-    "_FPS._init_greedy_search"],
-    "src/skmatter/sample_selection/_voronoi_fps.py": ["VoronoiFPS._continue_greedy_search"]}
+    "GreedySelector.fit", "GreedySelector._init_greedy_search", "GreedySelector._continue_greedy_search",
+    "_CUR._init_greedy_search", "_CUR._continue_greedy_search", "_CUR._orthogonalize",
+    "_PCovCUR._init_greedy_search", "_PCovCUR._continue_greedy_search", "_PCovCUR._orthogonalize",
+    "_CUR._update_post_selection", "_PCovCUR._update_post_selection",
+    "_FPS._init_greedy_search", "_PCovFPS._init_greedy_search"],
+    "src/skmatter/sample_selection/_voronoi_fps.py": ["VoronoiFPS._init_greedy_search",
+                                                      "VoronoiFPS._continue_greedy_search"]}
 
 
 def gen_data(rng, quick):
@@ -103,6 +107,18 @@ def final_tables(kind, axis, X, y, init, extra, ks, thr=None):
     return out
 
 
+def score_tie(va, vb, v, stream):
+    """two leverage scores tied within rounding.  Scores are sums of squares of components of unit
+    singular vectors; the components carry an ABSOLUTE rounding error (relative to norm 1), so besides
+    the relative test on the presented vector, two scores whose square roots differ by less than 1e-9
+    of the largest component ever presented are tied (e.g. both are rounding noise ~1e-33 once every
+    item with a genuine score has been taken)."""
+    if abs(va - vb) <= 1e-9 * max(1e-300, float(np.max(np.abs(v)))):
+        return True
+    top = max([float(np.max(np.abs(w))) for w in stream if len(w)] + [1e-300])
+    return abs(math.sqrt(max(va, 0.0)) - math.sqrt(max(vb, 0.0))) <= 1e-9 * math.sqrt(top)
+
+
 def tables_equal(kind, a, b):
     """chain vs cold on the implementation; returns None or a message."""
     if a["sel"] != b["sel"]:
@@ -115,8 +131,7 @@ def tables_equal(kind, a, b):
         ninit = len(b["sel"]) - len(b["stream"])
         if kind in ("cur", "pcovcur") and 0 <= t - ninit < len(b["stream"]):
             v = b["stream"][t - ninit]
-            gap = abs(float(v[a["sel"][t]]) - float(v[b["sel"][t]]))
-            if gap <= 1e-9 * max(1e-300, float(np.max(np.abs(v)))):
+            if score_tie(float(v[a["sel"][t]]), float(v[b["sel"][t]]), v, b["stream"]):
                 return "TIE"
         return "selections differ: chain %s vs cold %s" % (a["sel"], b["sel"])
     for key in ("X_selected", "y_selected", "distance", "select_distance"):
@@ -133,7 +148,7 @@ def tables_equal(kind, a, b):
 
 def run(ctx):
     po = C.proof_obligations(ctx.prop, extra_targets=["Model/Resolve.vo"])
-    ndata = 60 if ctx.quick else 500
+    ndata = 110 if ctx.quick else 500
     texts, metas = [], []
     stats = dict(kinds={}, schedules=0, exhaustive_inputs=0, stages=0, init_prefix=0, thr_unreached=0,
                  stream_bit_mismatch=0, skipped_rank=0, cur_re0=0, cur_re1=0)
@@ -239,6 +254,115 @@ def run(ctx):
                                  dict(case=data, nr=nr, prefix=cold["sel"][:kpre])))
             except Exception as e:  # noqa
                 viol.append(("FPS with prefix initialisation raised %s" % S.err_class(e), dict(case=data)))
+    # ---- extension (round 3): sessions with failed calls (family S) -----------------------------
+    sess_texts, sess_metas = [], []
+    keyed_reported = set()
+    nsess = 400 if ctx.quick else 4000
+    sstats = dict(sessions=0, calls=0, rejected_calls=0, init_failures=0, partial_init_failures=0,
+                  warm_after_never_returned=0, returned_calls=0, set_params=0, kinds={}, inexact_skipped=0)
+    for si in range(nsess):
+        data = gen_data(ctx.rng, ctx.quick)
+        ncand = len(data["X"]) if data["axis"] == 0 else len(data["X"][0])
+        nr_max = ncand
+        if data["kind"] in ("cur", "pcovcur"):
+            nr_max = min(ncand, rank_of(data) - 1)
+            if nr_max < 2:
+                continue
+        nr_max = min(nr_max, 7 if ctx.quick else 9)
+        events = SS.gen_session(ctx.rng, data, ncand, nr_max)
+        try:
+            recs, int_scores = SS.run_session(data, events)
+        except C.InexactOutput:
+            sstats["inexact_skipped"] += 1
+            continue
+        sstats["sessions"] += 1
+        sstats["kinds"][data["kind"]] = sstats["kinds"].get(data["kind"], 0) + 1
+        fitted_py = 0
+        for e, r in zip(events, recs):
+            if e["op"] == "set":
+                sstats["set_params"] += 1
+                continue
+            sstats["calls"] += 1
+            sstats["rejected_calls"] += "error" in r
+            sstats["returned_calls"] += "obs" in r
+            if e["mode"] == "init":
+                sstats["init_failures"] += 1
+                sstats["partial_init_failures"] += e.get("why") in ("list_oor", "list_long")
+                fitted_py = 0
+            if e["warm"] and e.get("why") == "warm_unfitted":
+                sstats["warm_after_never_returned"] += 1
+        sess_case = dict(kind=data["kind"], axis=data["axis"], X=data["X"], y=data["y"], init=data["init"],
+                         extra=data["extra"], family=data["family"], session=events)
+        skey = None
+        nfail0 = sstats.get("oracle_failures", 0)
+        for msg, key in SS.session_oracle(data, events, recs, final_tables, tables_equal):
+            skey = skey or key
+            if key is not None:
+                sstats["hits_" + ("F33" if key == SS.KEY_F33 else "keyed")] = sstats.get("hits_F33" if key == SS.KEY_F33 else "hits_keyed", 0) + 1
+                if key in keyed_reported:
+                    continue            # one report per known defect and run; the count is in the coverage
+                keyed_reported.add(key)
+            sstats["oracle_failures"] = sstats.get("oracle_failures", 0) + 1
+            if sstats["oracle_failures"] > 8:
+                continue                # enough replays; the count is in the coverage
+            C.report_violation(ctx, "C08 fails on the implementation (session): " + msg,
+                               dict(case=sess_case, observed=[{k: v for k, v in r.items() if k != "snap"} for r in recs]),
+                               key=key, found_input=True)
+        sess_texts.append(SS.session_coq(data, events, recs, int_scores))
+        sess_metas.append(dict(case=sess_case, observed=[{k: v for k, v in r.items() if k != "snap"} for r in recs],
+                               _key=skey, _oracle_failed=bool(sstats.get("oracle_failures", 0) > nfail0)))
+        if any(e["op"] == "fit" and e["mode"] != "ok" for e in events) and any(e["op"] == "fit" and e["warm"] for e in events):
+            nontrivial += 1
+    stats["sessions"] = sstats
+    # ---- extension (round 3): set_params(recompute_every) between fits (family W) ---------------
+    nsw = 250 if ctx.quick else 3000
+    wstats = dict(cases=0, ties=0, skipped_rank=0, stale_items_at_switch=0, stale_items_at_later_warm_starts=0,
+                  three_stage=0, directions={}, errors=0)
+    for wi in range(nsw):
+        data = gen_data(ctx.rng, ctx.quick)
+        while data["kind"] not in ("cur", "pcovcur"):
+            data = gen_data(ctx.rng, ctx.quick)
+        ncand = len(data["X"]) if data["axis"] == 0 else len(data["X"][0])
+        nr_max = min(ncand, rank_of(data) - 1, 7 if ctx.quick else 9)
+        if nr_max < 3:
+            wstats["skipped_rank"] += 1
+            continue
+        n1 = ctx.rng.randint(2, nr_max - 1)
+        n2 = ctx.rng.randint(n1 + 1, nr_max)
+        re_b = ctx.rng.choice([1, 1, 1, 2, 3])
+        if n1 % re_b != 0:
+            re_b = 1
+        first = [(0, n1)] if ctx.rng.random() < 0.6 else [(0, ctx.rng.randint(1, n1)), (0, n1)]
+        stages = first + [(re_b, n2)]
+        if n2 < nr_max and n2 % re_b == 0 and ctx.rng.random() < 0.4:
+            # one more warm start after the switch (nothing is stale any more)
+            stages = stages + [(re_b, ctx.rng.randint(n2 + 1, nr_max))]
+            wstats["three_stage"] += 1
+        dkey = "0->%d" % re_b
+        wstats["directions"][dkey] = wstats["directions"].get(dkey, 0) + 1
+        wcase = dict(kind=data["kind"], axis=data["axis"], X=data["X"], y=data["y"], init=None, extra=data["extra"],
+                     family=data["family"], switch_stages=stages)
+        try:
+            msg, info = SS.switch_compare(data, stages)
+        except Exception as e:  # noqa
+            wstats["errors"] += 1
+            C.report_violation(ctx, "C08 fails on the implementation: a chain with set_params(recompute_every) between "
+                               "the fits raised %s: %s" % (S.err_class(e), str(e)[:120]), dict(case=wcase), found_input=True)
+            continue
+        wstats["cases"] += 1
+        wstats["stale_items_at_switch"] += info["stale"][len(first) - 1]
+        wstats["stale_items_at_later_warm_starts"] += sum(info["stale"][len(first):])
+        if msg == "TIE":
+            wstats["ties"] += 1
+        elif msg and wstats.setdefault("failures", 0) >= 8:
+            wstats["failures"] += 1     # enough replays; the count is in the coverage
+        elif msg:
+            wstats["failures"] = wstats.get("failures", 0) + 1
+            C.report_violation(ctx, "C08 fails on the implementation: history dependence across set_params(recompute_every=%d) "
+                               "before a warm start, stages %s: %s" % (re_b, stages, msg),
+                               dict(case=wcase, info=info), found_input=True)
+        nontrivial += 1
+    stats["switch"] = wstats
     # correspondence of every chain with the model (stream scorer; exact buffers/views)
     per = 150
     groups = [list(range(i, min(i + per, len(texts)))) for i in range(0, len(texts), per)]
@@ -249,20 +373,42 @@ def run(ctx):
                       "From Verif Require Import ListX Greedy Resolve Select.\n"
                       "Definition verdicts : list bool := [\n %s].\n"
                       "Eval vm_compute in (failing verdicts).\n" % body)
+    sgroups = [list(range(i, min(i + per, len(sess_texts)))) for i in range(0, len(sess_texts), per)]
+    for g in sgroups:
+        body = ";\n ".join(sess_texts[i] for i in g)
+        shards.append(C.SHARD_HEAD + "From Coq Require Import PrimFloat.\n"
+                      "From Verif Require Import ListX Greedy Resolve Select SelSession.\n"
+                      "Definition verdicts : list bool := [\n %s].\n"
+                      "Eval vm_compute in (failing verdicts).\n" % body)
     outs = C.run_shards(ctx.prop, shards)
-    mism = []
-    for g, (rc, out) in zip(groups, outs):
+    mism, smism = [], []
+    for g, (rc, out) in zip(groups + sgroups, outs):
         lists = C.parse_nat_lists(out)
         if rc != 0 or len(lists) != 1:
             C.report_violation(ctx, "correspondence shard did not evaluate", dict(coq_output=out[-1500:]),
                                found_input=False)
             continue
-        mism += [g[k] for k in lists[0]]
+        if any(g is x for x in sgroups):
+            smism += [g[k] for k in lists[0]]
+        else:
+            mism += [g[k] for k in lists[0]]
     for msg, rep in viol:
         C.report_violation(ctx, "C08 fails on the implementation: " + msg, rep, found_input=True)
     for i in mism:
         C.report_violation(ctx, "correspondence Select model vs implementation broken on a warm-started chain",
                            dict(correspondence="schain_ok (Model/Select.v)", **metas[i]), found_input=False)
+    for i in smism:
+        if sess_metas[i]["_key"] is not None or sess_metas[i]["_oracle_failed"]:
+            continue                    # already reported with a failing input
+        nsm = stats["sessions"].get("model_mismatch_without_oracle_failure", 0) + 1
+        stats["sessions"]["model_mismatch_without_oracle_failure"] = nsm
+        if nsm > 8:
+            continue
+        C.report_violation(ctx, "correspondence session model (Model/SelSession.v) vs implementation broken: a call of fit "
+                           "in a session with failed calls did not do what the model says",
+                           dict(correspondence="sess_ok (Model/SelSession.v)",
+                                **{k: v for k, v in sess_metas[i].items() if not k.startswith("_")}),
+                           key=sess_metas[i]["_key"], found_input=False)
     if not po["ok"]:
         C.report_violation(ctx, "proof obligations of Properties/C08.v not discharged",
                            dict(theorem_file="coq/Properties/C08.v", log=po["log"][-2000:], scan=po["scan"],
@@ -272,12 +418,12 @@ def run(ctx):
                theorems=po["theorems"], axioms=po["axioms"],
                trusted_base=C.TRUSTED_BASE_COMMON + [
                    "CUR-family scores are an oracle stream: the theorem for them is conditional on the restart presenting the same scores, which the run checks on the implementation (chain vs cold)"],
-               evaluations=len(texts), distinct_nontrivial=nontrivial,
+               evaluations=len(texts) + len(sess_texts), distinct_nontrivial=nontrivial,
                rule="integer matrices x selector classes/directions (CUR family with recompute_every in {0,1}, rank above "
                     "the number of selections) x increasing n_to_select schedules (exhaustive for small n on a subset "
                     "of inputs, sampled otherwise) with unreached thresholds interleaved; non-trivial = distinct "
                     "(input, schedule) with at least one warm start",
-               traces_validated_against_impl=len(texts) - len(mism),
+               traces_validated_against_impl=len(texts) - len(mism) + len(sess_texts) - len(smism),
                samples=[metas[i] for i in range(min(2, len(metas)))],
                distribution=stats, anchor_drift=changed, exhaustive=False)
     return C.finish(ctx, "proof", cov, ["exact-arithmetic models; ties within rounding on float scores are outside the theorems"])
@@ -285,11 +431,32 @@ def run(ctx):
 
 def replay(ctx, obj):
     case = obj["case"]
+    if "session" in case:
+        data = {k: case[k] for k in ("kind", "axis", "X", "y", "init", "extra")}
+        events = case["session"]
+        recs, _ = SS.run_session(data, events)
+        for e, r in zip(events, recs):
+            if e["op"] == "fit":
+                print("replay: fit(warm_start=%s) n_to_select=%r initialize=%r [%s] -> %s" % (
+                    e["warm"], e["nts"], e["init"], e.get("why", "valid"),
+                    r.get("error", "returned selected_idx_=%s" % (r.get("obs") or {}).get("sel"))))
+        msgs = SS.session_oracle(data, events, recs, final_tables, tables_equal)
+        for m, _k in msgs:
+            print("replay:", m)
+        if not msgs:
+            print("replay: property holds on this session now")
+        return 1 if msgs else 0
+    if "switch_stages" in case:
+        data = {k: case[k] for k in ("kind", "axis", "X", "y", "init", "extra")}
+        msg, info = SS.switch_compare(data, [tuple(s) for s in case["switch_stages"]])
+        if msg == "TIE":
+            msg = None
+        print("replay:", msg or "property holds on this input now", info)
+        return 1 if msg else 0
     if "stages" not in case:
         print("replay: input without schedule; re-run the check")
         return 1
     ks = [s["nts"] for s in case["stages"]]
-    cold = final_tables(case["kind"], case["axis"], case["X"], case["y"], case["init"], case["extra"], [ks[-1]])
     thr = tuple(obj["thr"]) if obj.get("thr") else None
     cold = final_tables(case["kind"], case["axis"], case["X"], case["y"], case["init"], case["extra"], [ks[-1]], thr)
     chain = final_tables(case["kind"], case["axis"], case["X"], case["y"], case["init"], case["extra"], ks, thr)
